@@ -39,6 +39,12 @@ for it in range(N):
     t = T(data, now, {"selected": list(names)}); A.WeighERC(lookback=lb, covar_method="standard", tolerance=1e-10, maximum_iterations=500)(t); w = pd.Series(t.temp["weights"])[names]; evals += 1
     cov = win.cov().values; rc = w.values * (cov @ w.values); rc = rc / rc.sum()
     if (w < -1e-12).any() or abs(w.sum() - 1) > 1e-6 or np.max(np.abs(rc - 1.0 / n_assets)) > 1e-3: bad("equal-risk-contribution", contributions=list(map(float, rc)))
+    # ... and with a risk budget (risk_weights) the contributions follow the budget, whether or not starting weights are given as well
+    budget = rs.dirichlet(np.ones(n_assets) * 3); budget = budget / budget.sum()
+    for init in (None, np.ones(n_assets) / n_assets):       # (ffn wants arrays here)
+        t = T(data, now, {"selected": list(names)}); A.WeighERC(lookback=lb, covar_method="standard", tolerance=1e-12, maximum_iterations=2000, risk_weights=np.asarray(budget, dtype=float), initial_weights=init)(t); wb = pd.Series(t.temp["weights"])[names]; evals += 1
+        rcb = wb.values * (cov @ wb.values); rcb = rcb / rcb.sum()
+        if (wb < -1e-12).any() or abs(wb.sum() - 1) > 1e-6 or np.max(np.abs(rcb - budget)) > 5e-3: bad("risk-contributions-follow-the-risk-budget", contributions=list(map(float, rcb)), budget=list(map(float, budget)), initial_weights_given=init is not None)
     # 0 / 1 asset shortcuts
     for W in (A.WeighInvVol, A.WeighERC, A.WeighMeanVar):
         t = T(data, now, {"selected": []}); W()(t); evals += 1
@@ -89,7 +95,7 @@ for it in range(N):
         bad("target-vol-ledoit-wolf-raised", error=repr(e)[:200])
     # PTE trigger: True exactly when tracking-error volatility of current vs target exceeds the cap
     tw_ = pd.DataFrame([list(map(float, rs.dirichlet(np.ones(n_assets))))] * n, index=idx, columns=names)
-    posw = rs.dirichlet(np.ones(n_assets))
+    posw = rs.dirichlet(np.ones(n_assets)) * float(rs.choice([1.0, 0.6, 1.3]))        # fully invested, holding 40% cash, or levered: weights are position value over the strategy's value
     t = T(data, now, {}, value=1.0); t.positions = pd.DataFrame([posw / data.loc[now].values], index=[now], columns=names)
     diff = posw - tw_.loc[now].values
     pte = float(np.sqrt(diff @ cv @ diff * 252))
